@@ -777,8 +777,9 @@ class Decompiler(object):
             limit = decompiler.targets.pop(pos, None)
         top = decompiler.stack.pop()
         while True:
+            reached_limit = top is limit  # simplify() may replace a one-item clause with its item
             top = simplify(top)
-            if top is limit:
+            if reached_limit or top is limit:
                 break
             if isinstance(top, ast.comprehension):
                 break
